@@ -460,6 +460,63 @@ func rulesC12(c *Ctx) {
 				}
 			}
 		}
+		// what is compared with the body's version is the header as the client sent it — read again from the context, where an
+		// absent header is the empty string — not the local that was defaulted to 2025-03-26 for other purposes (with the
+		// default, a body that names exactly that version passes the "header required" test without a header)
+		{
+			pvc := c.FnObj(pM, "", "protocolVersionFromContext")
+			nCmp := 0
+			for _, cv := range spg.condVertices() {
+				cond := spg.Node(cv - 1).(ast.Expr)
+				ast.Inspect(cond, func(n ast.Node) bool {
+					b, isB := n.(*ast.BinaryExpr)
+					if !isB || (b.Op != token.NEQ && b.Op != token.EQL) {
+						return true
+					}
+					// a comparison of two string locals one of which is the body's _meta version
+					var other ast.Expr
+					for _, pair := range [][2]ast.Expr{{b.X, b.Y}, {b.Y, b.X}} {
+						if id, isID := ast.Unparen(pair[0]).(*ast.Ident); isID {
+							for _, w := range Writes(sp.Body, true) {
+								if sp.ObjOf(w.LHS) != sp.ObjOf(id) {
+									continue
+								}
+								if as, isAs := w.Stmt.(*ast.AssignStmt); isAs {
+									for _, r := range as.Rhs {
+										if strings.Contains(exprStr(r), "MetaKeyProtocolVersion") {
+											other = pair[1]
+										}
+									}
+								}
+							}
+						}
+					}
+					oid, isID := ast.Unparen(other).(*ast.Ident)
+					if other == nil || !isID || sp.ObjOf(oid) == nil {
+						return true
+					}
+					if _, isVar := sp.ObjOf(oid).(*types.Var); !isVar {
+						return true
+					}
+					nCmp++
+					okRaw := true
+					nW := 0
+					for _, w := range Writes(sp.Body, true) {
+						if sp.ObjOf(w.LHS) != sp.ObjOf(oid) {
+							continue
+						}
+						nW++
+						ce, isC := ast.Unparen(w.RHS).(*ast.CallExpr)
+						if !isC || !sp.IsCallTo(ce, pvc) {
+							okRaw = false
+						}
+					}
+					c.Check(okRaw && nW >= 1, "servePOST:header-version-is-the-raw-header#"+itoa(nCmp), sp, b, "the version compared with the body's _meta version is protocolVersionFromContext(...) itself (%d assignments)", nW)
+					return true
+				})
+			}
+			c.Pin("header/body version comparisons in servePOST", nCmp, 1)
+		}
 		c.Check(okGate, "servePOST:mirror-gate-reads-body-meta", sp, nil, "the header/body version cross-check is triggered by `header >= 2026-07-28 || _meta.protocolVersion != \"\"`, with the body's _meta version read unconditionally: a body that declares the new protocol cannot bypass the Mcp-* mirror checks by omitting or lowering the header")
 
 		// --- SSE handler
